@@ -59,6 +59,9 @@ Fixpoint prop_values (key : text) (toks : list text) : res (list Z) :=
 Definition last_nonzero (l : list Z) : option Z :=
   match rev l with v :: _ => if Z.eqb v 0 then None else Some v | [] => None end.
 
+Definition last_negative (l : list Z) : bool :=
+  match rev l with v :: _ => Z.ltb v 0 | [] => false end.
+
 (* _parse_atom_attributes; None = star atom *)
 Definition parse_atom_line (line : list text) : res (option ratom) :=
   do i <- nth_tok 2%nat line;
@@ -72,6 +75,8 @@ Definition parse_atom_line (line : list text) : res (option ratom) :=
   do chg <- prop_values (t "CHG") line;
   do mass <- (if Z.eqb iso 0 then prop_values (t "MASS") line else ok [iso]);
   do rad <- prop_values (t "RAD") line;
+  (* a negative MASS / RAD (last written value) is rejected *)
+  if last_negative mass || last_negative rad then inl EParser else
   ok (Some (mkRatom (idx - 1) sym zn (last_nonzero chg) (last_nonzero mass) (last_nonzero rad) x y z)).
 
 Definition expect_block (what : text) (line : list text) : res unit :=
@@ -143,6 +148,8 @@ Fixpoint parse_bonds (ls : list (list text)) (stars : list Z) (acc : list ((Z * 
                   else if memZ i1 stars then star_endpoints l i2
                   else if memZ i2 stars then star_endpoints l i1
                   else ok [(i1, i2)]);
+    (* a bond from an atom to itself is rejected *)
+    if existsb (fun k => Z.eqb (fst k) (snd k)) tuples then inl EParser else
     parse_bonds r stars (fold_left (fun d k => dict_set bkey_eqb k ty d) tuples acc)
   end.
 
